@@ -591,7 +591,7 @@ func genHist(r *hx.Rng, run *hx.Run, i int) histDesc {
 				srcs = append(srcs, s)
 			}
 		}
-		nconn := hx.Pick(r, []int{0, 1, 2, 9, 10, 11, 11, 12, 13, 15, 20, 25, r.Range(0, 25)})
+		nconn := hx.Pick(r, []int{0, 1, 9, 10, 11, 11, 12, 13, 15, 17, 20, 25, 25, r.Range(11, 25), r.Range(0, 25)})
 		for k := 0; k < nconn; k++ {
 			g.connect(hx.Pick(r, srcs), dst, p)
 			if r.Chance(1, 12) && len(dst.ins[p.Name]) > 1 { // middle disconnect
